@@ -162,7 +162,7 @@ def gen_items(tier, seed):
 
     # G1: amount multisets (confirmed), one payment, fpb 50
     for ms in multisets(QUICK_AMOUNTS if quick else FULL_AMOUNTS, 3 if quick else 5):
-        items.append(('G1', {'syms': list(ms), 'fpb': 50, 'strategies': strategies, 'rich': not quick or len(ms) <= 2}))
+        items.append(('G1', {'syms': list(ms), 'fpb': 50, 'strategies': strategies, 'rich': len(ms) <= (2 if quick else 4)}))
     # G2: confirmation states
     sa = STATE_AMOUNTS_Q if quick else STATE_AMOUNTS_T
     types = [(a, s) for a in sa for s in STATES]
@@ -434,6 +434,8 @@ class Session:
             self.key = key
             self.base_rows = self.h.rows()
             self.base_addr = self.h.address_count()
+            self.base_addresses = [r['address'] for r in
+                                   self.h.conn.execute("SELECT address FROM pubkey_address").fetchall()]
             self.fresh = True
         h = self.h
         h.ledger.coin_selection_strategy = case['strategy']
@@ -466,8 +468,14 @@ class Session:
         for k, r in self.base_rows.items():
             if now[k]['is_reserved'] != r['is_reserved']:
                 h.conn.execute("UPDATE txo SET is_reserved = ? WHERE txoid = ?", (r['is_reserved'], k))
+        if h.address_count() != self.base_addr:
+            # change keys derived by the previous case: forget them (the address managers keep no state of their own)
+            marks = ','.join('?' * len(self.base_addresses))
+            h.conn.execute(f"DELETE FROM account_address WHERE address NOT IN ({marks})", self.base_addresses)
+            h.conn.execute(f"DELETE FROM pubkey_address WHERE address NOT IN ({marks})", self.base_addresses)
         h.conn.commit()
-        return h.rows() == self.base_rows and h.address_count() == self.base_addr
+        return (h.rows() == self.base_rows and h.address_count() == self.base_addr and
+                [r['address'] for r in h.conn.execute("SELECT address FROM pubkey_address").fetchall()] == self.base_addresses)
 
     def close(self):
         if self.h is not None:
@@ -783,7 +791,7 @@ def run(ctx):
     for g, lst in by_group.items():
         w = weights[g]
         for i in range(0, len(lst), w):
-            pool_items.append((g, lst[i:i + w], ctx.seed, 3 if ctx.quick else 4))
+            pool_items.append((g, lst[i:i + w], ctx.seed, 3))
     ctx.pmap(work, pool_items)
     # a few written-out cases
     for case in (
@@ -802,8 +810,8 @@ def run(ctx):
               'short-by-1 and far-short; output shapes pay1, pay2, claim (name 1/30, name-char fee 0/200000), update, '
               'support, support+data, purchase, 250 outputs, 250 UTXOs, input-only sweep; pre-chosen reserved input worth '
               'cost-d for d in {5,9,10,11,50,99,100,0,-1,-DUST,..}; fee_per_byte 1/50/1000; decoys (reserved, spent, '
-              "other account's, claim, received purchase); used change addresses 0/1/2; every shuffle permutation when "
-              'random_draw is reached.  Non-trivial = the wallet holds at least one spendable coin; distinct = distinct '
+              "other account's, claim, received purchase); used change addresses 0/1/2; when random_draw is reached every "
+              'shuffle permutation of <= 3 coins and permutations number 1, n/2, n-1 (lexicographic / rotations) beyond.  Non-trivial = the wallet holds at least one spendable coin; distinct = distinct '
               'tuples of all dimension values.'),
         exhaustive=True,
         bounds={'max_multiset': 3 if ctx.quick else 5, 'strategies_in_core_product': QUICK_STRATEGIES if ctx.quick else ALL_STRATEGIES,
